@@ -1232,7 +1232,10 @@ func runC06Spool(s c06Scn, spoolRoot string) []ev {
 	gap := time.Duration(3*s.ReconnMs+5) * time.Millisecond
 
 	var failed string // the scenario could not be set up (no verdict)
-	var hold *wHold
+	var hold *wHold   // armed from the start: the first connection is made when the endpoint comes back
+	if s.Kind == "spoolgate" {
+		hold = st.armHold()
+	}
 	var moved int32 // the endpoint has made its last move (resume / close)
 	move := func() {
 		if !atomic.CompareAndSwapInt32(&moved, 0, 1) {
@@ -1273,9 +1276,6 @@ func runC06Spool(s c06Scn, spoolRoot string) []ev {
 			return
 		}
 		// 2. the endpoint is back: accepts, does not read
-		if s.Kind == "spoolgate" {
-			hold = st.armHold()
-		}
 		atomic.StoreInt32(&e.mode, mBlackhole)
 		if err := e.up(); err != nil {
 			failed = "listen: " + err.Error()
